@@ -313,9 +313,22 @@ if __name__ == "__main__":
 from fractions import Fraction
 
 
-def ask(lines):
-    """one driver process, many lines"""
-    return Driver().ask(lines) if lines else []
+def ask(lines, par=None):
+    """many lines through the driver; large batches are dealt round-robin to several driver processes (the verified evaluator
+    is single-threaded and a 4000-bit enclosure costs milliseconds), answers returned in request order"""
+    if not lines:
+        return []
+    n = par or (1 if len(lines) < 4000 else min(12, os.cpu_count() or 4))
+    if n == 1:
+        return Driver().ask(lines)
+    from concurrent.futures import ThreadPoolExecutor
+    parts = [lines[i::n] for i in range(n)]
+    with ThreadPoolExecutor(n) as ex:
+        res = list(ex.map(lambda part: Driver().ask(part), parts))
+    out = [None] * len(lines)
+    for i, r in enumerate(res):
+        out[i::n] = r
+    return out
 
 
 def acc_decide(reqs, klo=3, khi=4):
